@@ -421,7 +421,7 @@ func refVector(x []byte, fo *fastOut) []uint64 {
 	res := []uint64{unm}
 	top, ok := scan(x)
 	if unm != stOk || !ok {
-		return append(append(res, boolU(ok)), zeros(7+26)...)
+		return append(append(res, boolU(ok)), zeros(7+26+1)...)
 	}
 	idF, hasID := lastOf(top, 1, 2)
 	sigF, hasSig := lastOf(top, 2, 2)
@@ -507,6 +507,9 @@ func refVector(x []byte, fo *fastOut) []uint64 {
 	res = append(res, b3(parF, hasPar, sbase)...)
 	res = append(res, b3(psigF, hasPsig, sbase)...)
 	res = append(res, b3(phdrF, hasPhdr, sbase)...)
+	// the input is exactly what the real encoder produces for the decoded object (canonical at every
+	// nesting level): only then re-marshalled parts can be compared with located bytes
+	res = append(res, boolU(bytes.Equal(o.Marshal(), x)))
 	return res
 }
 
